@@ -32,7 +32,7 @@ def _chunks(*files):
 
 GEN1_FILES = ("GenCore", "GenKOps", "GenKFns", "GenKCtor", "GenRegs")
 GEN2_FILES = ("GenPre", "GenQuant", "GenQProb", "GenOps", "GenBits", "GenH", "GenCtors", "GenQft", "GenSample", "GenVirtl", "GenExtOp",
-              "GenCreg", "GenMeas", "GenSym", "GenInt", "GenMatrix", "GenMacro")
+              "GenCreg", "GenMeas", "GenSym", "GenInt", "GenMatrix", "GenMacro", "GenMacroNew")
 GEN2_MODULES = _chunks(*GEN2_FILES) + ["Qvnt.Lemmas.GenTwins", "Qvnt.Lemmas.GenThreads"]
 
 
@@ -54,7 +54,7 @@ def tie3(theorems, sources):
     return tie2(theorems, sources)
 
 
-CANON_MODULES = ["Qvnt.Lemmas.Canon." + m for m in ['MacroNew', 'ParseContext', 'ParseEvalExtended', 'SymInit']]
+CANON_MODULES = ["Qvnt.Lemmas.Canon." + m for m in ['ParseContext', 'ParseEvalExtended', 'SymInit']]
 
 
 def tiec(items):
@@ -64,7 +64,7 @@ def tiec(items):
             "sources": r"UNSUPPORTED .*"}
 
 
-TB_CANON = "canonical-text tie tools/canon.py: for the interpreter code the model still mirrors by hand (macros.rs: Macro::new; parse.rs: the meval context and eval_extended; the field lists of Int / Macro / Sym; Sym::new / init and its getters - int/mod.rs itself is translated by tools/rs2lean2.py and calls these through the model functions) the current source text, normalised up to comments, layout and names of locals, must be the text the model was written against (tools/canon.json); an edit breaks the named obligation <item>_canon and is then examined by the correspondence suites"
+TB_CANON = "canonical-text tie tools/canon.py: for the interpreter code the model still mirrors by hand (parse.rs: the meval context and eval_extended; the field lists of Int / Macro / Sym; Sym::new / init and its getters - int/mod.rs itself is translated by tools/rs2lean2.py and calls these through the model functions) the current source text, normalised up to comments, layout and names of locals, must be the text the model was written against (tools/canon.json); an edit breaks the named obligation <item>_canon and is then examined by the correspondence suites"
 
 TB_TIE2 = "translator tools/rs2lean2.py (collection-level Rust subset: iterator pipelines over Vec/VecDeque as lists, &mut methods as state-passing functions, loops with fuel, Option for unwrap/unreachable, `match self.th` reduced to the sequential arm after checking that the parallel arm is its rayon twin, random draws as inputs; regenerates Generated/Regs.lean from src/register/quant.rs, src/operator/{single,multi}/mod.rs, src/operator/multi/h.rs, src/operator/mod.rs and src/operator/single/{pauli,rotate,swap}.rs (public constructors), src/math/bits_iter.rs, src/register/{class,virtl}.rs, src/operator/multi/qft.rs, src/qasm/int/ext_op.rs, src/qasm/sym.rs and the declaration / argument-resolution / measure / reset / append functions of src/qasm/int/mod.rs (Result as Except) on every run; Lemmas/GenRegs2.lean, GenRegs3.lean, GenInt.lean prove every translated function equal to the model definition) - the translator and the dozen list combinators of Model/RustStd.lean are trusted, the output is not"
 TB_TIE_REG = "translator tools/rs2lean.py (straight-line Rust subset -> Lean; regenerates the classical-register functions of src/register/class.rs on every run; Lemmas/GenRegs.lean proves each equal to the model's CReg function) - the translator itself is trusted, its output is not"
@@ -142,7 +142,7 @@ PROPS = {
     },
     "C11": {
         "modules": ["Qvnt.Props.C11"],
-        "tie": [tie3(r"int_process_(apply_gate|gate|if|node|nodes|node_apply)_eq|int_(ast_changes|add_ast|new)_eq|processNode_inv|processApply_macros|foldlM_process|regsOf_eq|argsOf_eq|macro_process(_nested)?_eq|macro_argument_name_eq", r"UNSUPPORTED (mod\.rs: qasm/int/mod\.rs::(process_(apply_gate|gate|if|node|nodes)|ast_changes|add_ast|new):|macros\.rs)"), tiec(r"macro_\w+|parse_\w+|sym_\w+"), tie(r"creg_(set|xor|reset|get)_eq|notW_eq", sources=r"UNSUPPORTED class\.rs"), tie2(r"creg_get_by_mask_eq|quant_(reset_by_mask|measure_mask|reset)_eq|bitsList_eq|sym_(finish|step|reset|new|get_class|get_probabilities)_eq|store_(set|xor)_eq|finish_as_foldlM|mstep_inv", r"UNSUPPORTED (quant\.rs: register/quant\.rs::(reset_by_mask|measure_mask|reset):|class\.rs|bits_iter\.rs|sym\.rs)", creg=True), tie2(r"extop_(push|append)_eq", r"UNSUPPORTED ext_op\.rs"), tie3(r"int_process_(measure|reset|barrier)_eq|int_branch(_with_id)?_eq|int_xor_eq|int_get_[qc]_idx_eq", r"UNSUPPORTED mod\.rs: qasm/int/mod\.rs::(process_(measure|reset|barrier)|branch|branch_with_id|xor|get_[qc]_idx_with_context|get_idx_by_alias):")],
+        "tie": [tie3(r"int_process_(apply_gate|gate|if|node|nodes|node_apply)_eq|int_(ast_changes|add_ast|new)_eq|processNode_inv|processApply_macros|foldlM_process|regsOf_eq|argsOf_eq|macro_process(_nested)?_eq|macro_argument_name_eq|macro_new_eq", r"UNSUPPORTED (mod\.rs: qasm/int/mod\.rs::(process_(apply_gate|gate|if|node|nodes)|ast_changes|add_ast|new):|macros\.rs)"), tiec(r"parse_\w+|sym_\w+"), tie(r"creg_(set|xor|reset|get)_eq|notW_eq", sources=r"UNSUPPORTED class\.rs"), tie2(r"creg_get_by_mask_eq|quant_(reset_by_mask|measure_mask|reset)_eq|bitsList_eq|sym_(finish|step|reset|new|get_class|get_probabilities)_eq|store_(set|xor)_eq|finish_as_foldlM|mstep_inv", r"UNSUPPORTED (quant\.rs: register/quant\.rs::(reset_by_mask|measure_mask|reset):|class\.rs|bits_iter\.rs|sym\.rs)", creg=True), tie2(r"extop_(push|append)_eq", r"UNSUPPORTED ext_op\.rs"), tie3(r"int_process_(measure|reset|barrier)_eq|int_branch(_with_id)?_eq|int_xor_eq|int_get_[qc]_idx_eq", r"UNSUPPORTED mod\.rs: qasm/int/mod\.rs::(process_(measure|reset|barrier)|branch|branch_with_id|xor|get_[qc]_idx_with_context|get_idx_by_alias):")],
         "suites": [suite("intnu", dict(count=600), dict(count=20000))],
         "mismatch_tags": INT_STRUCT,
         "spec_tags": [r"refsem\.(psi|creg|run)", r"c11\..*", r"iexpect\.accept"],
@@ -155,7 +155,7 @@ PROPS = {
     },
     "C12": {
         "modules": ["Qvnt.Props.C12"],
-        "tie": [tie3(r"int_process_(apply_gate|gate|if|node|nodes|node_apply)_eq|int_(ast_changes|add_ast|new)_eq|processNode_inv|processApply_macros|foldlM_process|regsOf_eq|argsOf_eq|macro_process(_nested)?_eq|macro_argument_name_eq", r"UNSUPPORTED (mod\.rs: qasm/int/mod\.rs::(process_(apply_gate|gate|if|node|nodes)|ast_changes|add_ast|new):|macros\.rs)"), tiec(r"macro_\w+|parse_\w+|sym_\w+")],
+        "tie": [tie3(r"int_process_(apply_gate|gate|if|node|nodes|node_apply)_eq|int_(ast_changes|add_ast|new)_eq|processNode_inv|processApply_macros|foldlM_process|regsOf_eq|argsOf_eq|macro_process(_nested)?_eq|macro_argument_name_eq|macro_new_eq", r"UNSUPPORTED (mod\.rs: qasm/int/mod\.rs::(process_(apply_gate|gate|if|node|nodes)|ast_changes|add_ast|new):|macros\.rs)"), tiec(r"parse_\w+|sym_\w+")],
         "suites": [suite("fuzz", dict(count=1500, timeout=120), dict(count=60000, timeout=3000)),
                    suite("intnu", dict(count=200), dict(count=3000))],
         "mismatch_tags": [r"i(add|chg)\.result", r"isym\.(new|init|reset|finish)(\.creg)?"],
@@ -169,7 +169,7 @@ PROPS = {
     },
     "C17": {
         "modules": ["Qvnt.Props.C17"],
-        "tie": [tie3(r"int_process_(apply_gate|gate|if|node|nodes|node_apply)_eq|int_(ast_changes|add_ast|new)_eq|processNode_inv|processApply_macros|foldlM_process|regsOf_eq|argsOf_eq|macro_process(_nested)?_eq|macro_argument_name_eq", r"UNSUPPORTED (mod\.rs: qasm/int/mod\.rs::(process_(apply_gate|gate|if|node|nodes)|ast_changes|add_ast|new):|macros\.rs)"), tiec(r"sym_\w+"), tie2(r"extop_(push|append)_eq|sym_(finish|step|reset|new|get_class|get_probabilities)_eq|finish_as_foldlM", r"UNSUPPORTED (ext_op\.rs|sym\.rs)", creg=True), tie3(r"int_(append|prepend)_int_eq", r"UNSUPPORTED mod\.rs: qasm/int/mod\.rs::(append_int|prepend_int):")],
+        "tie": [tie3(r"int_process_(apply_gate|gate|if|node|nodes|node_apply)_eq|int_(ast_changes|add_ast|new)_eq|processNode_inv|processApply_macros|foldlM_process|regsOf_eq|argsOf_eq|macro_process(_nested)?_eq|macro_argument_name_eq|macro_new_eq", r"UNSUPPORTED (mod\.rs: qasm/int/mod\.rs::(process_(apply_gate|gate|if|node|nodes)|ast_changes|add_ast|new):|macros\.rs)"), tiec(r"sym_\w+"), tie2(r"extop_(push|append)_eq|sym_(finish|step|reset|new|get_class|get_probabilities)_eq|finish_as_foldlM", r"UNSUPPORTED (ext_op\.rs|sym\.rs)", creg=True), tie3(r"int_(append|prepend)_int_eq", r"UNSUPPORTED mod\.rs: qasm/int/mod\.rs::(append_int|prepend_int):")],
         "suites": [suite("c17", dict(count=300), dict(count=10000))],
         "mismatch_tags": INT_STRUCT,
         "spec_tags": [r"isame", r"iexpect\.asts"],
@@ -182,11 +182,11 @@ PROPS = {
     },
     "C18": {
         "modules": ["Qvnt.Props.C18"],
-        "tie": [tie3(r"int_process_(apply_gate|gate|if|node|nodes|node_apply)_eq|int_(ast_changes|add_ast|new)_eq|processNode_inv|processApply_macros|foldlM_process|regsOf_eq|argsOf_eq|macro_process(_nested)?_eq|macro_argument_name_eq", r"UNSUPPORTED (mod\.rs: qasm/int/mod\.rs::(process_(apply_gate|gate|if|node|nodes)|ast_changes|add_ast|new):|macros\.rs)"), tiec(r"macro_new"), tie3(r"int_(append|prepend)_int_eq|int_process_(qreg|creg)_eq", r"UNSUPPORTED mod\.rs: qasm/int/mod\.rs::(append_int|prepend_int|process_(qreg|creg)):")],
+        "tie": [tie3(r"int_process_(apply_gate|gate|if|node|nodes|node_apply)_eq|int_(ast_changes|add_ast|new)_eq|processNode_inv|processApply_macros|foldlM_process|regsOf_eq|argsOf_eq|macro_process(_nested)?_eq|macro_argument_name_eq|macro_new_eq", r"UNSUPPORTED (mod\.rs: qasm/int/mod\.rs::(process_(apply_gate|gate|if|node|nodes)|ast_changes|add_ast|new):|macros\.rs)"), tie3(r"int_(append|prepend)_int_eq|int_process_(qreg|creg)_eq", r"UNSUPPORTED mod\.rs: qasm/int/mod\.rs::(append_int|prepend_int|process_(qreg|creg)):")],
         "suites": [suite("c18", dict(count=400), dict(count=12000))],
         "mismatch_tags": [r"iadd\.(result|summary|blocks?\d*|tail)", r"inew.*"],
         "spec_tags": [r"iunchanged", r"isame", r"iexpect\.plant"],
-        "trusted_base": [TB_CANON] + [TB_TIE2] + TB_COMMON,
+        "trusted_base": [TB_TIE2] + TB_COMMON,
         "assumptions": ASSUME_COMMON + ["the theorem is immediate for a model that interprets a chunk into a delta and commits on success; its weight is on the correspondence, which shows that the real add_ast behaves like that model for failing chunks with the error after 0..7 accepted statements (also new registers / gate definitions) and for the continuation"],
         "level_text": "Lean theorems (Props/C18.lean): a rejected chunk returns the session unchanged and a later chunk behaves as if the attempt never happened (C18_rollback, C18_continue); statements before the failing one leave nothing behind (C18_prefix_discarded); the computed changes depend only on the session's registers and gate definitions. Tied to the code by the c18 suite: session, snapshot, failing chunk (20 kinds of violation after a prefix of good statements incl. fresh registers and gate definitions), check that Debug-level summary of the session is identical to the snapshot, then a continuation chunk, executed and compared with a session that never saw the failing chunk.",
         "level_note": "Trusted: Lean kernel + standard axioms; model of add_ast (after the D19 repair).",
@@ -224,7 +224,7 @@ PROPS = {
     },
     "C10": {
         "modules": ["Qvnt.Props.C10"],
-        "tie": [tie3(r"int_process_(apply_gate|gate|if|node|nodes|node_apply)_eq|int_(ast_changes|add_ast|new)_eq|processNode_inv|processApply_macros|foldlM_process|regsOf_eq|argsOf_eq|macro_process(_nested)?_eq|macro_argument_name_eq", r"UNSUPPORTED (mod\.rs: qasm/int/mod\.rs::(process_(apply_gate|gate|if|node|nodes)|ast_changes|add_ast|new):|macros\.rs)"), tiec(r"macro_\w+|parse_\w+"), tie2(r"extop_(push|append)_eq|sym_(finish|step|reset|new|get_class|get_probabilities)_eq|finish_as_foldlM", r"UNSUPPORTED (ext_op\.rs|sym\.rs)", creg=True), tie3(r"int_get_[qc]_idx_eq|fold_idx_eq|int_branch(_with_id)?_eq|int_process_(qreg|creg|barrier|opaque)_eq", r"UNSUPPORTED mod\.rs: qasm/int/mod\.rs::(get_idx_by_alias|get_[qc]_idx_with_context|branch|branch_with_id|process_(qreg|creg|barrier|opaque)):")],
+        "tie": [tie3(r"int_process_(apply_gate|gate|if|node|nodes|node_apply)_eq|int_(ast_changes|add_ast|new)_eq|processNode_inv|processApply_macros|foldlM_process|regsOf_eq|argsOf_eq|macro_process(_nested)?_eq|macro_argument_name_eq|macro_new_eq", r"UNSUPPORTED (mod\.rs: qasm/int/mod\.rs::(process_(apply_gate|gate|if|node|nodes)|ast_changes|add_ast|new):|macros\.rs)"), tiec(r"parse_\w+"), tie2(r"extop_(push|append)_eq|sym_(finish|step|reset|new|get_class|get_probabilities)_eq|finish_as_foldlM", r"UNSUPPORTED (ext_op\.rs|sym\.rs)", creg=True), tie3(r"int_get_[qc]_idx_eq|fold_idx_eq|int_branch(_with_id)?_eq|int_process_(qreg|creg|barrier|opaque)_eq", r"UNSUPPORTED mod\.rs: qasm/int/mod\.rs::(get_idx_by_alias|get_[qc]_idx_with_context|branch|branch_with_id|process_(qreg|creg|barrier|opaque)):")],
         "suites": [suite("int", dict(count=500), dict(count=15000)), suite("c10e", dict(count=300), dict(count=6000)),
                    suite("c10f", dict(count=400), dict(count=12000))],
         "mismatch_tags": INT_STRUCT,
@@ -238,7 +238,7 @@ PROPS = {
     },
     "C13": {
         "modules": ["Qvnt.Props.C13"],
-        "tie": [tie3(r"int_process_(apply_gate|gate|if|node|nodes|node_apply)_eq|int_(ast_changes|add_ast|new)_eq|processNode_inv|processApply_macros|foldlM_process|regsOf_eq|argsOf_eq|macro_process(_nested)?_eq|macro_argument_name_eq", r"UNSUPPORTED (mod\.rs: qasm/int/mod\.rs::(process_(apply_gate|gate|if|node|nodes)|ast_changes|add_ast|new):|macros\.rs)"), tiec(r"macro_\w+|parse_\w+"), tie3(r"int_check_(ident|reg_size|dup)_eq|int_process_(qreg|creg|measure|reset)_eq|int_get_[qc]_idx_eq|fold_idx_eq", r"UNSUPPORTED mod\.rs: qasm/int/mod\.rs::(check_(ident|reg_size|dup)|process_(qreg|creg|measure|reset)|get_[qc]_idx_with_context|get_idx_by_alias):")],
+        "tie": [tie3(r"int_process_(apply_gate|gate|if|node|nodes|node_apply)_eq|int_(ast_changes|add_ast|new)_eq|processNode_inv|processApply_macros|foldlM_process|regsOf_eq|argsOf_eq|macro_process(_nested)?_eq|macro_argument_name_eq|macro_new_eq", r"UNSUPPORTED (mod\.rs: qasm/int/mod\.rs::(process_(apply_gate|gate|if|node|nodes)|ast_changes|add_ast|new):|macros\.rs)"), tiec(r"parse_\w+"), tie3(r"int_check_(ident|reg_size|dup)_eq|int_process_(qreg|creg|measure|reset)_eq|int_get_[qc]_idx_eq|fold_idx_eq", r"UNSUPPORTED mod\.rs: qasm/int/mod\.rs::(check_(ident|reg_size|dup)|process_(qreg|creg|measure|reset)|get_[qc]_idx_with_context|get_idx_by_alias):")],
         "suites": [suite("c13", dict(count=600), dict(count=20000))],
         "mismatch_tags": [r"iadd\.result"],
         "spec_tags": [r"iexpect\..*"],
